@@ -61,6 +61,13 @@ func (fr *Frame) guardedCheck(st *State, fa *ssa.FieldAddr, base Val, pos token.
 		kind = "write"
 	}
 	freshObj := fmt.Sprintf("(> (root %s) %s)", base.S, fr.topEntryHeap())
+	for _, f := range tc.Flags["init_phase"] {
+		if f == fr.oblFunc() || f == fr.fname {
+			// the object is initialised by this function before any other goroutine can reach it
+			fr.r.assumes["initialisation phase: "+f+" runs before the object is shared (documented call order)"] = true
+			return
+		}
+	}
 	if l := tc.lockOf(fname); l != "" {
 		lockRef := r.subObj(sk, l, base.S)
 		held := sSelect(r.get(st, "g|$held"), lockRef)
